@@ -192,3 +192,39 @@ def recv_place_fields(body, operand):
             continue
         return []
     return []
+
+
+def fmt_template(b):
+    """decode the compact format_args template emitted by rustc (nightly): [len, bytes.., 0xc0 = argument, .. , 0x00 end]
+    -> list of str pieces and the marker '{}'"""
+    if not isinstance(b, (bytes, bytearray)):
+        return None
+    out = []
+    i = 0
+    while i < len(b):
+        c = b[i]
+        if c == 0:
+            break
+        if c >= 0xc0:
+            out.append('{}')
+            i += 1
+            # argument descriptors may carry extra bytes when flags are set; 0xc0 alone = plain next argument
+            continue
+        if c < 0x80:
+            out.append(b[i + 1:i + 1 + c].decode('utf8', 'replace'))
+            i += 1 + c
+            continue
+        return None
+    return out
+
+
+def fmt_of(body, term_or_operand):
+    """(template pieces, [argument origin terms]) of the fmt::Arguments feeding a format!() result"""
+    t = term_or_operand
+    calls = find_terms(t, lambda x: is_call(x, name='new') and 'fmt::Arguments' in x[1])
+    if not calls:
+        return None, []
+    c = calls[0]
+    tpl = fmt_template(const_val(c[2][0]))
+    args = find_terms(c[2][1], lambda x: is_call(x, name='new_display') or is_call(x, name='new_debug'))
+    return tpl, [a[2][0] for a in args]
